@@ -530,6 +530,15 @@ func c03CatPair(thorough bool) *c03Cat {
 		cat.add("P/"+k+"/dup-names/cte-qualified", "ambiguity:cte", c3with(c3sel(c3f("d.a"), nil, c3ref("d")), &relm.CTE{Name: "d", Q: dup}))
 		cat.add("P/"+k+"/dup-names/join-condition", "ambiguity:derived", c3sel(c3f("z.c"), nil, c3join("INNER", c3sub(dup, "s"), c3refAs("t2", "z"), c3eq(c3c("s.a"), c3c("z.a")))))
 	}
+	// operands of different widths (the base tables both have two columns): a four-column right or left operand
+	for _, k := range c03Kinds {
+		wide2 := c3sub(c3sel(c3f("a", "c", c3as(c3c("c"), "c2"), c3as(c3c("a"), "a3")), nil, t2), "w")
+		wide1 := c3sub(c3sel(c3f("a", "b", c3as(c3c("b"), "b2"), c3as(c3c("a"), "a3")), nil, t1), "w")
+		narrow2 := c3sub(c3sel(c3f("a"), nil, t2), "n")
+		cat.add("P/"+k+"/wider-right", "join:widths", c3sel(c3star(), nil, c3join(k, t1, wide2, c3eq(c3c("t1.a"), c3c("w.a")))))
+		cat.add("P/"+k+"/wider-left", "join:widths", c3sel(c3star(), nil, c3join(k, wide1, t2, c3eq(c3c("w.a"), c3c("t2.a")))))
+		cat.add("P/"+k+"/narrower-right", "join:widths", c3sel(c3star(), nil, c3join(k, t1, narrow2, c3eq(c3c("t1.a"), c3c("n.a")))))
+	}
 	cat.add("P/scalar-in-select", "nested:scalar subquery", c3sel(c3f("a", c3as(relm.Scalar{Q: c3sel(c3f("c"), c3eq(c3c("t2.a"), c3c("t1.a")), t2)}, "m")), nil, t1))
 	return cat
 }
